@@ -495,6 +495,22 @@ def h_vectors(ctx):
                 ok = len(got) == len(exp) and all(abs(float(a) - b) <= 1e-6 for a, b in zip(got, exp))
                 if not ok:
                     ctx.fail("vectors:range-%s" % ("end-point-missing" if len(got) == len(exp) - 1 else "values"), text=variant, expected=exp, actual=[float(x) for x in got])
+    # large steps (unix times, station ids): the end point may fall just short of the next grid value
+    base = 1325376000 + int(start * 2) * 3600
+    for step in (3600, 21600, 86400, 100000):
+        for n in (0, 1, 3):
+            for off in (-1, 0, 1, step // 2):
+                end = base + n * step + off
+                if end < base:
+                    continue
+                text = "%d:%d:%d" % (base, step, end)
+                kind, got, site, out = H.quiet_call(verif.util.parse_numbers, text)
+                exp = parse_vector(text)
+                checked += 1
+                if kind != "ok":
+                    ctx.fail("vectors:%s:%s" % (kind, site or "rejected-valid-syntax"), text=text)
+                elif not (len(got) == len(exp) and all(abs(float(a) - b) <= 1e-6 for a, b in zip(got, exp))):
+                    ctx.fail("vectors:range-%s" % ("beyond-end-point" if len(got) > len(exp) else "values"), text=text, expected=exp, actual=[float(x) for x in got])
     ctx.count(checked)
     ctx.observe(start)
     ctx.outcome("ok")
